@@ -1,15 +1,16 @@
 #!/bin/sh
 # usage: tools/try_seed.sh <patch.diff> <PROP> [--tier quick|thorough] [--only substr]
-# applies the patch to /repo, runs the check, always restores /repo afterwards
-P="$1"; shift; ID="$1"; shift
-cd /repo || exit 9
-git diff --quiet || { echo "/repo has uncommitted changes"; exit 9; }
-git apply "$P" || { echo "patch does not apply"; exit 9; }
+# copies /repo's working tree to a scratch directory, applies the patch THERE and points the check at it (VERIF_REPO);
+# /repo itself is never touched.  The scratch copy is removed afterwards.
+P="$(realpath "$1")"; shift; ID="$1"; shift
+S=$(mktemp -d /tmp/seedrepo.XXXXXX)
+cp -r /repo/pyrepseq /repo/setup.py "$S"/ 2>/dev/null
+( cd "$S" && git init -q . && git apply "$P" ) || { echo "patch does not apply"; rm -rf "$S"; exit 9; }
 cd /verif
-./vcheck "$ID" --no-evidence "$@" > /tmp/try_seed.out 2>&1; rc=$?
-git -C /repo checkout -- .
-grep -c '^VIOLATION' /tmp/try_seed.out | sed 's/^/violations: /'
-grep '^violation' /tmp/try_seed.out | cut -c1-300 | head -4
-tail -1 /tmp/try_seed.out | cut -c1-250
-rm -rf /verif/replays
+VERIF_REPO="$S" ./vcheck "$ID" --no-evidence "$@" > /tmp/try_seed.$$.out 2>&1; rc=$?
+rm -rf "$S"
+grep -c '^VIOLATION' /tmp/try_seed.$$.out | sed 's/^/violations: /'
+grep '^violation' /tmp/try_seed.$$.out | cut -c1-300 | head -4
+tail -1 /tmp/try_seed.$$.out | cut -c1-250
+rm -f /tmp/try_seed.$$.out
 echo "exit=$rc"
